@@ -76,10 +76,26 @@ Doubles ==
                        [] kind = 2 -> << ExprS(h1.e), Set(Y, h2.e), ExprS(h1.e) >>
         IN  P("h2-" \o ToString(i), stmts, <<"hybrid2", ToString(kind), h1.tag, h2.tag>>)]
 
+\* statement-expressions in BOTH arms of ?: (only the selected arm's statements may run), also nested
+SEs == << StmtExpr(<< Upd(X, 4) >>, X),
+          StmtExpr(<< Decl(S32, "t", Bin("+", A, K(1))), Upd(X, 6) >>, Bin("+", Var("t"), X)),
+          StmtExpr(<< Upd(X, 5), Set(Rx, X) >>, Bin("-", Rx, K(2))) >>
+C1 == Bin("&", A, K(1))
+C2 == Bin("&", A, K(2))
+BothArms ==
+    [i \in 1..(9 * 3) |->
+        LET e1 == SEs[((i - 1) % 3) + 1]
+            e2 == SEs[(((i - 1) \div 3) % 3) + 1]
+            ctx == (i - 1) \div 9
+            stmts == CASE ctx = 0 -> << Upd(X, 1), Set(Y, Cond(C1, e1, e2)), Upd(X, 2) >>
+                       [] ctx = 1 -> << Upd(X, 1), Decl(S32, "z", Cond(C1, e1, e2)), Upd(X, 2), Set(Y, Var("z")) >>
+                       [] ctx = 2 -> << Upd(X, 1), Set(Y, Cond(C1, e1, Cond(C2, e2, e1))), Upd(X, 2) >>
+        IN  P("hb-" \o ToString(i), stmts, <<"botharms", ToString(ctx)>>)]
+
 \* no hybrid at all (control group)
 Controls == << P("h0-plain", << Upd(X, 1), Set(Y, Bin("+", X, K(1))), Upd(X, 2) >>, <<"control">>) >>
 
-Programs == Singles \o Doubles \o Controls
+Programs == Singles \o Doubles \o BothArms \o Controls
 Out == [programs |-> Programs, subs |-> Subs]
 
 VARIABLE x
